@@ -107,6 +107,17 @@ def _one(p):
     return best, len(p['events']) + 1, err, r['distinct'], r['generated'], (out[-1500:] if err and err != 'timeout' else '')
 
 
+def _ends(lst, k):
+    """k elements of a list sorted by length: alternately the shortest and the longest ones."""
+    lst = list(lst)
+    out = []
+    while lst and len(out) < k:
+        out.append(lst.pop(0))
+        if lst and len(out) < k:
+            out.append(lst.pop())
+    return out
+
+
 def conformance(ctx, executed, limit=40):
     todo = []
     for sc, r, v in executed:
@@ -120,7 +131,7 @@ def conformance(ctx, executed, limit=40):
     a = [p for p in todo if p.get('wild')]
     b = [p for p in todo if not p.get('wild')]
     na = min(len(a), max(limit // 3, limit - len(b)))
-    todo = a[:na] + b[:limit - na]
+    todo = _ends(a, na) + _ends(b, limit - na)
     acc = und = 0
     drift = []
     with _TPE(8) as ex:
